@@ -141,3 +141,41 @@ PROPS["C03"] = dict(
 
 PROPS["C14"]["e2"] = ["c14"]
 PROPS["C14"]["bounds"] += "; BigInt narrowing (as_u64, as_int): every mathematical integer"
+
+PROPS["C09"] = dict(
+    bounds="each of the seven script sources present/absent with one arbitrary Plutus witness; no / 1 / 2 extra witness datums (thorough: also an empty list)",
+    assumptions=["PlutusWitnesses::collect and hash_script_data are uninterpreted: what is decided is that the hash side and the emitted witness set receive the same witnesses, redeemers, datum list and language set",
+                 "the byte format of the hash preimage (hash_script_data, language_views_encoding, PlutusList::to_set_bytes) and blake2b are outside this obligation",
+                 "auxiliary-data hash: build_and_size sets hash_auxiliary_data(self.auxiliary_data) and build_tx_unsafe attaches the same field (C05 gate obligation covers the latter)"],
+    e1=[],
+    e2=["c09"],
+)
+PROPS["C10"] = dict(
+    bounds="1-3 items per purpose (4 in the thorough tier) in the container's emitted order, every Plutus / native-script / key pattern; items themselves arbitrary (lazy)",
+    assumptions=["containers are abstract sequences in their iteration order; for mint and inputs (BTreeMap) and votes/proposals that order is the sorted key order the body is emitted in, for certificates the insertion order",
+                 "KNOWN FINDING: withdrawals iterate in insertion order (LinkedHashMap) while the ledger indexes reward redeemers in reward-account order"],
+    e1=[],
+    e2=["c10"],
+)
+
+PROPS["C04"] = dict(
+    bounds="Plutus datum: every byte string of 5 (quick) / 7 (thorough) bytes",
+    assumptions=["FixedTransaction bookkeeping is decided by E2 obligations (see obl/c04.py)"],
+    e1=[J("c04_datum_prefix_5", bound="every 5-byte string", encodes=["PlutusData::from_bytes", "PlutusData::to_bytes"], mem_gb=24, timeout_s=2400, tier="thorough"),
+        J("c04_datum_prefix_7", bound="every 7-byte string", encodes=["PlutusData::from_bytes", "PlutusData::to_bytes"], mem_gb=30, timeout_s=3000, tier="thorough")],
+)
+PROPS["C16"] = dict(
+    bounds="builder part: as C09 (witness datums collected and emitted once through the de-duplicating setter)",
+    assumptions=["set containers themselves (add / from_bytes de-duplication, canonical asset order) are E1 obligations still to be added"],
+    e1=[],
+    e2=["c09"],
+)
+
+PROPS["C01"] = dict(
+    bounds="struct level: TransactionBody (21 keys) and TransactionWitnessSet (8 keys): presence combinations none / singles / pairs / all, optional collections present-but-empty or non-empty, scalar fields all u64, nested values opaque items; "
+           "leaf level: the C03 and C14 E1 harnesses (encode == reference bytes, decode of the numeric leaves)",
+    assumptions=["cbor_event's Serializer/Deserializer are modelled at token level (mir2smt/cbormodel.py); a nested value of another type is one opaque well-formed item carrying the value's identity",
+                 "decoders of nested types, byte-level encodings of collections, governance actions, parameter updates, metadata, Plutus data and blocks are outside this obligation"],
+    e1=[],
+    e2=["c01"],
+)
